@@ -779,10 +779,25 @@ fn shrink_candidates(s: &Scn) -> Vec<Scn> {
                     out.push(c);
                 }
             };
-            for ki in 0..part.kfs.len() {
-                push(&|t| {
-                    t.kfs.remove(ki);
-                });
+            if part.kfs.len() > 48 {
+                let n_k = part.kfs.len();
+                let mut len = n_k / 2;
+                while len >= (n_k / 16).max(1) {
+                    let mut start = 0;
+                    while start + len <= n_k {
+                        push(&|t| {
+                            t.kfs.drain(start..start + len);
+                        });
+                        start += len;
+                    }
+                    len /= 2;
+                }
+            } else {
+                for ki in 0..part.kfs.len() {
+                    push(&|t| {
+                        t.kfs.remove(ki);
+                    });
+                }
             }
             push(&|t| t.easing = 0);
             push(&|t| t.delay = 0.0);
@@ -790,7 +805,7 @@ fn shrink_candidates(s: &Scn) -> Vec<Scn> {
             push(&|t| t.reverse = false);
             push(&|t| t.duration = 1.0);
             push(&|t| t.kfs.sort_by(|a, b| a.pos.total_cmp(&b.pos)));
-            for ki in 0..part.kfs.len() {
+            for ki in 0..part.kfs.len().min(12) {
                 push(&|t| t.kfs[ki].easing = None);
                 push(&|t| t.kfs[ki].via_from = false);
             }
